@@ -10,7 +10,12 @@ cp /repo/src/_gettsim/_version.py "$WT/src/_gettsim/" 2>/dev/null
 DEMO=$(ls "$D"/demo.py "$D"/test_demo.py 2>/dev/null | head -1)
 run_demo() { if [[ "$DEMO" == *test_demo.py ]]; then (cd "$WT" && PYTHONPATH="$WT/src" timeout 900 /venv/bin/python -m pytest -q -p no:cacheprovider "$DEMO" >/dev/null 2>&1); else (cd "$WT" && PYTHONPATH="$WT/src" timeout 900 /venv/bin/python "$DEMO" >/dev/null 2>&1); fi; echo $?; }
 R0=$(run_demo)
-if ! git -C "$WT" apply "$D/patch.diff"; then echo "$NAME: PATCH DOES NOT APPLY"; git -C /repo worktree remove --force "$WT"; exit 3; fi
+if ! git -C "$WT" apply "$D/patch.diff" 2>/dev/null; then
+  # the tree moved on (fix: commits); try with fuzz and re-base the stored patch onto the current HEAD
+  if (cd "$WT" && patch -p1 --forward --no-backup-if-mismatch -s -i "$D/patch.diff"); then
+    cp "$D/patch.diff" "$D/patch.orig.diff"; git -C "$WT" diff > "$D/patch.diff"; echo "$NAME: patch re-based onto current HEAD"
+  else echo "$NAME: PATCH DOES NOT APPLY"; git -C /repo worktree remove --force "$WT"; exit 3; fi
+fi
 R1=$(run_demo)
 SUITE=$(cd "$WT" && PYTHONPATH="$WT/src" /venv/bin/python -m pytest -q -p no:cacheprovider -n "$J" src/_gettsim_tests 2>&1 | tail -1)
 git -C /repo worktree remove --force "$WT"
